@@ -56,7 +56,7 @@ RULE = ('trees first, text second. Quick, exhaustive: all trees of depth <= 1 ov
         '20-character alphabet x 3 contexts, stored number spellings, logicals, error literals. '
         'References as arguments and operands: 43 formula shapes (cell, range, intersection, range operator, OFFSET / ROW / '
         'COLUMN / INDEX / INDIRECT forms, calls that return a reference as operand of every operator class and as '
-        'argument of SUM / AVERAGE / MIN / MAX / COUNT / IF / IFERROR / SUMPRODUCT) x 18 sheet names of every legal kind '
+        'argument of SUM / AVERAGE / MIN / MAX / COUNT / IF / IFERROR / SUMPRODUCT) x 20 sheet names of every legal kind '
         '(blanks, quotes, brackets, !, %, digits first, address-like, TRUE) x {own sheet, other sheet} x 2 spacings, '
         'through a real workbook, expected values read off a grid of distinct numbers. '
         'A case = one (tree, rendering, route) evaluation; non-trivial = the tree has an operator or is a '
@@ -872,7 +872,7 @@ def all_texts(max_len):
 
 # sheet names Excel accepts (anything but : \\ / ? * [ ], at most 31 characters, no apostrophe at either end)
 REF_SHEETS = ['Data', 'My Sheet', 'Sheet1 (2)', "it's", 'a"b', 'P&L (EU)', 'Costs+1,2', '2024', 'x{y}', 'a%b',
-              'A1', 'say "hi" (1)', 'Σ-total', 'a)b', 'c(d', 'e!f', 'TRUE', 'R1C1']
+              'A1', 'say "hi" (1)', 'Σ-total', 'a)b', 'c(d', 'e!f', 'TRUE', 'R1C1', 'US$', 'Cost $ (net)']
 GRID_ROWS, GRID_COLS = 4, 3
 
 
